@@ -180,7 +180,9 @@ inductive Ev where
 
 /-! ## Primitive operations -/
 
-/-- `next_register()`: `(registers.len() - register_base) as u8` -/
+/-- `next_register()` as a register id: `(registers.len() - register_base) as u8`. Since fix b752efa
+the cast is guarded (`nextRegisterOk`, below); wherever an entry's check has passed the `% 256` is
+the identity. -/
 def nextRegister (vm : VM) : Nat := (vm.regs - vm.base) % 256
 
 /-- `truncate_registers(len)`: `registers.truncate(register_base + len)` -/
@@ -333,11 +335,50 @@ def nested (args argRegs : Nat) (st : St) : St :=
     let vm1 := { vm with regs := vm.regs + 1 + args }
     ⟨callKoto fb argRegs true vm1, .loop .propagate :: st.conts⟩
 
+/-! ### the register check in front of every host entry (fix b752efa, ea3163c)
+
+`next_register()` no longer casts to `u8` silently: it fails with a runtime error when fewer than 8
+register ids are left above the running frame. `run` / `call_and_run_function` ask twice (result
+register; frame base after the result register and a temporary tuple's values were pushed — on
+failure the pushed registers are truncated again, fix ea3163c); `run_*_op` ask once and then use
+`new_frame_base()` (`u8::try_from`, no headroom) — a failure there returns through `?` and the
+wrapper of fix d4834c0 truncates. In every failing case the value stack is what it was and the
+error goes to the caller, so all of them are `raiseGo st.conts true st.vm`. When the checks pass,
+the `% 256` in `nextRegister` is the identity. -/
+
+def nextRegisterOk (vm : VM) : Bool := decide (vm.regs - vm.base + 8 ≤ 255)
+
+def fitsEnter (vm : VM) (pre : Nat) : Bool :=
+  nextRegisterOk vm && nextRegisterOk { vm with regs := vm.regs + pre }
+
+def fitsOp (vm : VM) (pre : Nat) : Bool :=
+  nextRegisterOk vm && decide (vm.regs + pre - vm.base ≤ 255)
+
+def enterChecked (pre args : Nat) (c : Callee) (st : St) : St :=
+  if fitsEnter st.vm pre then enter pre args c st else raiseGo st.conts true st.vm
+
+def enterOpChecked (pre args : Nat) (c : Callee) (st : St) : St :=
+  if fitsOp st.vm pre then enterOp pre args c st else raiseGo st.conts true st.vm
+
+def enterDirectChecked (pre : Nat) (ok : Bool) (st : St) : St :=
+  if nextRegisterOk st.vm then enterDirect pre ok st else raiseGo st.conts true st.vm
+
+/-- `Yield` executed by a frame that is not a generator's (only possible at the top level of a
+chunk: `compile_and_run("yield 1")`, or a module with a top-level `yield`): `execute_instructions`
+returns `Ok(value)` with the frames still on the call stack, and the Rust caller (`run`) only
+truncates the registers — the chunk's frame stays (F-C07-4). Not an `Ev`: the theorems quantify over
+executions without it; `C07.run_yield_not_clean` is the negation witness. -/
+def yieldAtTop (st : St) : St :=
+  match st.conts with
+  | .loop (.truncate rr) :: conts => ⟨truncate rr st.vm, conts⟩
+  | .loop .propagate :: conts => ⟨st.vm, conts⟩
+  | _ => st
+
 def step (ev : Ev) (st : St) : St :=
   match ev with
-  | .enter pre args c => enter pre args c st
-  | .enterOp pre args c => enterOp pre args c st
-  | .enterDirect pre ok => enterDirect pre ok st
+  | .enter pre args c => enterChecked pre args c st
+  | .enterOp pre args c => enterOpChecked pre args c st
+  | .enterDirect pre ok => enterDirectChecked pre ok st
   | .nested args argRegs => nested args argRegs st
   | _ =>
   if inLoop st then
@@ -419,9 +460,14 @@ def runUntil (depth : Nat) : List Ev → St → St
   | [], st => st
   | ev :: rest, st => if st.conts.length ≤ depth then st else runUntil depth rest (step ev st)
 
-/-- A host entry bracket: prologue, then the events of the execution up to the entry's return. -/
+/-- A host entry bracket whose register check has passed: prologue, then the events of the
+execution up to the entry's return. -/
 def runEntry (pre args : Nat) (c : Callee) (evs : List Ev) (st : St) : St :=
   runUntil st.conts.length evs (enter pre args c st)
+
+/-- A host entry bracket including the register check (`run` / `call_and_run_function`). -/
+def runEntryChecked (pre args : Nat) (c : Callee) (evs : List Ev) (st : St) : St :=
+  runUntil st.conts.length evs (enterChecked pre args c st)
 
 /-- The bracket has returned to its caller. -/
 def Exited (st0 st : St) : Prop := st.conts.length ≤ st0.conts.length
